@@ -109,11 +109,24 @@ def run(ctx, res):
         rows.append(row)
         reqs.append(("from_parts", [name, d_wire(d), 1, vtext]))
         reqs.append(("parts", row["line"] if isinstance(row["line"], str) else "X:"))
+        reqs.append(("c05_guards", [name, d_wire(d), 1, vtext]))
     outs = M.batch(reqs) if M else None
+    n_in_guard = 0
     for i, ((name, d, kind, v), row) in enumerate(zip(casesA, rows)):
         m_line = m_parts = None
         if outs is not None:
-            m_line, m_parts = outs[2 * i], outs[2 * i + 1]
+            m_line, m_parts, m_guards = outs[3 * i], outs[3 * i + 1], outs[3 * i + 2]
+            # inside the guards of theorem C05_join_split the implementation must return exactly
+            # (name, canonical parameters, value text): this is the theorem's claim, checked on the real code
+            if m_guards != ["unsupported"] and all(m_guards) and row["parts"] is not None:
+                n_in_guard += 1
+                want_exact = [name, sorted([[k.upper(), (pv[0] if isinstance(pv, list) and len(pv) == 1 else
+                                                         ("" if pv == [] else pv))] for k, pv in d_q(d)],
+                                           key=lambda kv: kv[0]), row["vtext"]]
+                if row["parts"] != want_exact:
+                    res.fail("C05 join/split inside the theorem's guards: parts(from_parts(...)) differs from "
+                             "(name, canonical params, value text)", [name, d, kind, v], observed=row["parts"],
+                             expected=want_exact)
             res.corr("Contentline.from_parts", [name, d, row["vtext"]], row["line"], m_line)
             if row["parts"] is not None:
                 res.corr("Contentline.parts", row["line"], row["parts"], m_parts)
@@ -145,6 +158,7 @@ def run(ctx, res):
             res.fail("C05 join/split: parts(from_parts(name, params, value)) does not return name, params and value",
                      [name, d, kind, v], observed=row["parts"], expected=[name, want_ps, "<text decoding to value>"])
 
+    res.extra["join_split_cases_inside_theorem_guards"] = n_in_guard
     # ------------------------------------------------------------------ (B) injection
     strings = [""]
     for n in (1, 2, 3):
@@ -246,6 +260,11 @@ def run(ctx, res):
                      [slot, s], observed=got, expected=intended)
     res.sample({"A": casesA[0], "line": rows[0]["line"], "parts": rows[0]["parts"]})
     res.sample({"B-slot": "url", "string": "END:VEVENT", "note": "spliced into 7 slots; structure of parse(to_ical) compared with the intended one"})
+
+
+def d_q(d):
+    """DQUOTE -> apostrophe, as dquote() does (canon_params of the model)"""
+    return [[k, ([x.replace('"', "'") for x in pv] if isinstance(pv, list) else pv.replace('"', "'"))] for k, pv in d]
 
 
 def replay(ctx, data):
